@@ -49,6 +49,8 @@ type Ctx struct {
 	libraryIndexed map[*ssa.Function]bool
 	vtaG           *callgraph.Graph
 	nm             *Names
+	layoutMemo     *[2]bool // result of the layout evaluation (computed once per loaded tree)
+	escMemo        *bool
 }
 
 // LoadOpts selects the build configuration and an optional overlay.
@@ -698,6 +700,7 @@ func (c *Ctx) funcDecl(p *packages.Package, recv, name string) *ast.FuncDecl {
 func (r *Report) include(prefix, what string, fn func(sub *Report)) {
 	sub := newReport(r.Prop, r.Tier)
 	fn(sub)
+	sub.applyDecisions()
 	nOK := 0
 	for _, ob := range sub.Obls {
 		if ob.Status == Discharged {
